@@ -9,9 +9,9 @@ ID = "C14"
 LEVEL = "exploration"
 RULE = (
     "seeded inputs for amap, afilter (also with None), afilterfalse, asorted, amax, amin, asift: sequences of length "
-    "0-9 of distinguishable, mutually unorderable element objects (plus ints, bools/floats that compare equal, None), "
+    "0-9 of distinguishable, mutually unorderable element objects (plus ints, bools/floats that compare equal, objects that are == but not identical, None), "
     "many duplicates and equal keys; passed as list, tuple, one-shot iterator or generator; key/predicate is an "
-    "@asynq function that blocks on a harness batch item or not, may return unorderable keys or raise for one element; "
+    "@asynq function that blocks on a harness batch item or not, may return unorderable keys, give different verdicts to equal-looking elements (type- or identity-sensitive), or raise for one element; "
     "reverse on/off; varargs vs single-iterable call forms; wrong call forms. Oracle: the builtin (map, filter, "
     "itertools.filterfalse, sorted, max, min, a two-way partition) applied to the same data with the synchronous twin - "
     "same result with element IDENTITY compared, or the same exception type; with a blocking key exactly one flush per "
@@ -38,20 +38,37 @@ class Elem(object):
         return "E%d(k=%r)" % (self.ident, self.k)
 
 
+class EqElem(Elem):
+    """Distinguishable by identity, but EQUAL (==) to every element with the same k."""
+
+    __slots__ = ()
+
+    def __eq__(self, other):
+        return isinstance(other, Elem) and other.k == self.k
+
+    def __ne__(self, other):
+        return not self.__eq__(other)
+
+    def __hash__(self):
+        return hash(self.k)
+
+
 def make_input(rnd):
     n = rnd.choice([0, 0, 1, 1, 2, 2, 3, 3, 4, 5, 6, 7, 9])
-    style = rnd.choice(["elem", "elem", "elem", "int", "mixednum", "withnone"])
+    style = rnd.choice(["elem", "elem", "eqelem", "int", "mixednum", "withnone"])
     data = []
     for i in range(n):
         if style == "elem":
             data.append(Elem(i, rnd.choice([0, 1, 1, 2, 2, 3])))
+        elif style == "eqelem":
+            data.append(EqElem(i, rnd.choice([0, 1, 1, 2])))
         elif style == "int":
             data.append(rnd.choice([0, 1, 2, 3, 3, 5]))
         elif style == "mixednum":
             data.append(rnd.choice([0, 1, 1.0, True, False, 0.0, 2]))
         else:
             data.append(rnd.choice([None, 0, 1, 2, None]))
-    keymode = rnd.choice(["k", "k", "k", "neg", "const", "unorderable", "raise_one", "truthy"])
+    keymode = rnd.choice(["k", "k", "k", "neg", "const", "unorderable", "raise_one", "truthy", "typed", "typed"])
     return data, style, keymode
 
 
@@ -68,6 +85,11 @@ def twin_factory(keymode, data, rnd):
             return 7
         if keymode == "truthy":
             return bool(base)
+        if keymode == "typed":
+            # equal-looking elements get different verdicts: by exact type for numbers, by identity for objects
+            if isinstance(x, Elem):
+                return x.ident % 2
+            return 1 if type(x) is int else 0
         if keymode == "unorderable":
             return "s" if (base is not None and base == 1) else base
         if keymode == "raise_one":
